@@ -303,6 +303,9 @@ pub fn run_job_ext(mode: &str, job: &Value) -> Option<Value> {
         "roundtrip" => roundtrip_job(job),
         "flagcmp" => flagcmp_job(job),
         "fmtcheck" => fmtcheck_job(job),
+        "history" => crate::sched::history_job(job),
+        "interleave" => crate::sched::interleave_job(job),
+        "freerun" => crate::sched::freerun_job(job),
         "postcheck" => crate::post::postcheck_job(job),
         "pipecmp" => crate::post::pipeline_compare(
             job.get("base").and_then(|s| s.as_str()).unwrap_or(""),
